@@ -108,6 +108,11 @@ CHECKS = {
         "(b) Token-level corruptions (delete, duplicate, swap, stray end tag) of the document builder's documents with the specification's class of the first document (ok / err / eof), cross-checked against an independent encoding/xml Token loop, and for each "
         "document every byte-level truncation, deletion and nine substitutions per position classified by that loop; applied to eight XML decoder forms, the bulk handlers and BeautifyXml (no panic, class agrees, no partial Map, returned Maps encode without panic); JSON and gob inputs likewise.",
    ref="DESIGN.md section 4, C15", technique="TLA+ character-level argument parsers + token-level corruption classes (TLC enumeration), replay under recover with stdlib tokenizers as second oracle"),
+ "C19": dict(
+   text="A file is specified as a stream (MxjStream): framing iterated to EOF, Maps read so far plus an error when a document is cut. Writer half: MC_C19 enumerates every list of one or two Maps of the pair-mode builder (attribute keys, strings with braces, "
+        "quotes and backslashes, numbers) with the exact file content the writers must produce (concatenation of the encoder specifications' bytes) and the Maps the readers must return (XML: fixed point of each Map's own round trip, checked as a theorem; JSON/gob/Copy: identity); "
+        "the harness writes real temporary files with XmlFile/XmlFileIndent/JsonFile/JsonFileIndent (three indent strings) and reads them back with the four readers incl. Raw. Reader half: every stream profile whole and cut at every byte offset through real files, and the cut profiles through all reader schedules.",
+   ref="DESIGN.md section 4, C19", technique="TLA+ stream + encoder specs (TLC), exact file content and read-back replay through real temporary files"),
 }
 NOT_YET = "machinery for this property is not built yet in this round (design in DESIGN.md section 4); no claim is made"
 
